@@ -464,6 +464,43 @@ fn check_edge_value<T: Fl>(g: &Graph<T>, a: usize, b: usize, v: [T; 3], c: &mut 
     }
 }
 
+/// buffer forms of one edge over one chunk of source values: `Vec<B>::from_color`, `Box<[B]>::from_color`
+/// element-wise equal to from_color_unclamped + clamp; the unclamped buffer forms equal to the single conversion
+fn check_edge_buffers<T: Fl>(g: &Graph<T>, a: usize, b: usize, vals: &[[T; 3]], c: &mut Collector, cnt: &mut [u64; 3]) {
+    let (Some(unc), Some(buf), Some((clamp_b, _))) = (g.unc[a][b], g.buf[a][b], g.clamp[b]) else { return };
+    let sig = |check: &str| format!("C03/{}/{}/{}/{}->{}", check, g.name, T::NAME, g.nodes[a].name, g.nodes[b].name);
+    let Ok(outs) = pv::catch(|| buf(vals)) else { return };
+    cnt[1] += 4 * vals.len() as u64;
+    let names = ["Vec::from_color", "Box<[_]>::from_color", "Vec::from_color_unclamped", "Box<[_]>::from_color_unclamped"];
+    for (k, out) in outs.iter().enumerate() {
+        if out.len() != vals.len() {
+            c.violation(&sig("buffer-length"), 1.0, || json!({"sub": "edge-buffer", "group": g.name, "float": T::NAME, "path": [g.nodes[a].name, g.nodes[b].name], "what": names[k], "input": vals.iter().map(|v| hex(v)).collect::<Vec<_>>(), "observed": out.len(), "expected": vals.len()}));
+            continue;
+        }
+        for (i, v) in vals.iter().enumerate() {
+            let Ok(u) = pv::catch(|| unc(*v)) else { continue };
+            if !u.iter().all(|x| x.finite()) {
+                continue;
+            }
+            let want = if k < 2 {
+                match pv::catch(|| clamp_b(u)) {
+                    Ok(w) => w,
+                    Err(_) => continue,
+                }
+            } else {
+                u
+            };
+            cnt[2] += 1;
+            if bits(&out[i]) != bits(&want) {
+                let v1 = [*v];
+                c.violation(&sig(if k < 2 { "buffer-from_color-vs-unclamped+clamp" } else { "buffer-unclamped-vs-single" }), 1.0, || {
+                    json!({"sub": "edge-buffer", "group": g.name, "float": T::NAME, "path": [g.nodes[a].name, g.nodes[b].name], "what": names[k], "input": v1.iter().map(|v| hex(v)).collect::<Vec<_>>(), "value": f64s(v), "observed": f64s(&out[i]), "expected": f64s(&want)})
+                });
+            }
+        }
+    }
+}
+
 fn run_graph<T: Fl>(ctx: &Ctx, g: &Graph<T>, dense: bool, total: &mut Collector) {
     let sub = format!("edges/{}/{}", g.name, T::NAME);
     if !ctx.wants(&sub) {
@@ -491,10 +528,13 @@ fn run_graph<T: Fl>(ctx: &Ctx, g: &Graph<T>, dense: bool, total: &mut Collector)
                 check_edge_value(g, a, b, vals_ref[a][i], c, &mut cnt);
             }
         }
+        for b in 0..n {
+            check_edge_buffers(g, a, b, &vals_ref[a][lo..hi], c, &mut cnt);
+        }
         c.add(&sub, states, cnt[1], cnt[2], states);
     });
     total.merge(cc);
-    total.exhaustive(&sub, true, &format!("{} nodes, every discovered FromColor/TryFromColor edge x every lattice value of the source (in range + scaled out of range)", n));
+    total.exhaustive(&sub, true, &format!("{} nodes, every discovered FromColor/TryFromColor edge x every lattice value of the source (in range + scaled out of range); Vec and Box<[_]> buffer forms of every edge over the same values in chunks of up to 256", n));
 }
 
 macro_rules! with_graph {
@@ -528,6 +568,18 @@ fn replay(c: &mut Collector, rep: &Value) {
                 check_edge_value(g, ia, ib, [T::from_bits64(b[0]), T::from_bits64(b[1]), T::from_bits64(b[2])], c, &mut cnt);
             }
             with_graph!(group.as_str(), float.as_str(), |g| go(&g, &path, &b, c));
+        }
+        "edge-buffer" => {
+            let group = case["group"].as_str().unwrap_or("").to_string();
+            let path: Vec<String> = case["path"].as_array().map(|a| a.iter().map(|x| x.as_str().unwrap_or("").to_string()).collect()).unwrap_or_default();
+            let vals: Vec<Vec<u64>> = case["input"].as_array().map(|a| a.iter().map(|v| inbits(v)).collect()).unwrap_or_default();
+            fn go<T: Fl>(g: &Graph<T>, path: &[String], vals: &[Vec<u64>], c: &mut Collector) {
+                let (ia, ib) = (g.index(&path[0]).expect("node"), g.index(&path[1]).expect("node"));
+                let mut cnt = [0u64; 3];
+                let v: Vec<[T; 3]> = vals.iter().map(|b| [T::from_bits64(b[0]), T::from_bits64(b[1]), T::from_bits64(b[2])]).collect();
+                check_edge_buffers(g, ia, ib, &v, c, &mut cnt);
+            }
+            with_graph!(group.as_str(), float.as_str(), |g| go(&g, &path, &vals, c));
         }
         _ => {
             let ty = case["type"].as_str().unwrap_or("").to_string();
